@@ -214,11 +214,12 @@ def run_sim(sh):
           a.en @= rng.getrandbits(1)
         a.sim_tick()
       sh.count("sim_components")
-  try:
-    from vlib.checks import c20_proc
-    c20_proc.run_programs_for_monitor(sh, rng, 2 if sh.tier == "quick" else 12)
-  except ImportError:
-    pass
+  import sys
+  if "/repo" not in sys.path:
+    sys.path.insert(0, "/repo")
+  from vlib.checks import c20_proc
+  c20_proc.run_programs_for_monitor(sh, rng, 2 if sh.tier == "quick" else 12)
+  sh.count("sim_processor_programs", 2 if sh.tier == "quick" else 12)
   n = bitsmon.judged_total() - before
   sh.count("sim_contract_evaluations", n)
   sh.count("evaluations", n)
